@@ -38,7 +38,7 @@ def layout_for(size, mixed=False, damaged=None):
     contig-per-process mode is complete whatever the plan code does with small contigs. mixed: the D4-sensitive shape."""
     contigs = [{'name': 'chrA', 'len': 250_000, 'big': True, 'kinds': ['pair'] * size[1]},
                {'name': 'chrB', 'len': 100_000, 'big': True, 'kinds': ['pair_rev'] * size[2]}]
-    if damaged:      # one read pair without SM/RX tags and without demultiplexing information in its name, at position k of n
+    if damaged in ('first', 'mid', 'last'):      # one read pair without SM/RX tags and without demultiplexing information in its name, at position k of n
         kinds = contigs[0]['kinds']
         at = {'first': 0, 'mid': len(kinds) // 2 + (len(kinds) % 2), 'last': len(kinds)}[damaged]
         kinds.insert(at, 'untagged')
@@ -116,11 +116,26 @@ def make_case(cid, workdir, s, method, bamseed, mixed=False, damaged=None, shape
     argv = [inp, '-method', method, '-o', out]
     if s['pipeline'] == 'multi':
         argv += ['--multiprocess', '-tagthreads', '2', '-temp_folder', cdir]
+    # environment / data driven failures (no fault injected; the judgement is the usual one: ok => complete output)
+    inp_observed = inp
+    if damaged == 'truncated_input':            # verify_and_fix_bam refuses it
+        import shutil
+        inp_observed = os.path.join(cdir, 'in_full.bam')      # what the input was meant to hold (observer side)
+        shutil.copyfile(inp, inp_observed)
+        with open(inp, 'r+b') as f:
+            f.truncate(max(64, os.path.getsize(inp) - 40))
+    elif damaged == 'index_missing':            # verify_and_fix_bam builds the index, the run must then be complete
+        os.remove(inp + '.bai')
+    elif damaged == 'bad_temp_folder' and s['pipeline'] == 'multi':
+        argv[argv.index('-temp_folder') + 1] = os.path.join(cdir, 'no_such_dir')
+    elif damaged == 'unsorted_path_blocked':    # <out>.bam.unsorted cannot be opened for writing
+        os.makedirs(out + '.unsorted', exist_ok=True)
     fault, hang = fault_for(s)
     if fault and str(fault.get('target', '')).startswith('@'):
         fault['target'] = {'@unsorted': out + '.unsorted', '@out': out}[fault['target']]
-    return {'id': cid, 'argv': argv, 'out': out, 'inp': inp, 'truth': truth, 'layout': layout, 'scn': s, 'method': method,
-            'fault': fault, 'expect_hang': hang, 'prerun': bool(s['prev']), 'bamseed': bamseed, 'mixed': mixed, 'damaged': damaged or '', 'shape': shape or '', 'snapshots': True,
+    return {'id': cid, 'argv': argv, 'out': out, 'inp': inp, 'inp_observed': inp_observed, 'truth': truth, 'layout': layout, 'scn': s, 'method': method,
+            'fault': fault, 'expect_hang': hang,
+            'prerun': bool(s['prev']) and damaged not in ('truncated_input', 'bad_temp_folder', 'unsorted_path_blocked'), 'bamseed': bamseed, 'mixed': mixed, 'damaged': damaged or '', 'shape': shape or '', 'snapshots': True,
             'stale_old_index': bool(s['prev'])}
 
 
@@ -133,7 +148,7 @@ def strip(o):
 
 
 def events_for(case, res, tid):
-    inrecs = th.read_records(case['inp'])
+    inrecs = th.read_records(case['inp_observed'])
     for r in inrecs:
         t = case['truth'][(r['name'], r['mate'])]
         r['pm'], r['valid'] = t['pm'], t['valid']
@@ -201,6 +216,10 @@ def main():
                 for pos in ('first', 'mid', 'last'):
                     for m in ('nla', 'chic'):
                         cases.append(make_case(len(cases) + 1, workdir, s, m, rng.randrange(1 << 30), damaged=pos))
+                for env_failure in ('truncated_input', 'index_missing', 'bad_temp_folder', 'unsorted_path_blocked'):
+                    if (env_failure == 'bad_temp_folder') != (s['pipeline'] == 'multi') and env_failure in ('bad_temp_folder', 'unsorted_path_blocked'):
+                        continue
+                    cases.append(make_case(len(cases) + 1, workdir, s, 'nla', rng.randrange(1 << 30), damaged=env_failure))
     results = th.run_cases(cases, workdir, parallel=8, timeout=90, hang_timeout=6 if tier == 'quick' else 10)
     n_fired = 0
     with open(outp, 'w') as f:
